@@ -122,7 +122,9 @@ def run(chk, prop):
         if real is None:
             continue
         probes = mutants.probes_zoo(seedv) if prop == "C08" else mutants.probes_plain(seedv)
-        if per_seed is not None and len(probes) > per_seed:
+        # (schemas with format-significant text in their keys are few: all their probes are kept)
+        special = "[123" in core.json.dumps(s.get("keys", [])) or "[123" in core.json.dumps(s.get("type", []))
+        if per_seed is not None and len(probes) > per_seed and not special:
             probes = [probes[0]] + chk.rng.sample(probes[1:], per_seed - 1)
         for v in probes:
             try:
